@@ -884,11 +884,11 @@ def check_arbitrary_float(rep, g):
             if lows and ups and all(isinstance(v.get('value'), (int, float)) for v in lows + ups):
                 lo_v, hi_v = float(lows[0]['value']), float(ups[0]['value'])
                 mx = 3.4028234663852886e38 if d['inner'] == 'f32' else 1.7976931348623157e308
-                inf_end = math.isinf(lo_v) or math.isinf(hi_v) or (hi_v - lo_v) > mx
+                inf_end = math.isinf(lo_v) or math.isinf(hi_v)   # (bounds more than MAX apart were repaired: 710a450)
             rep.ob('R-ARB-FLT', False, g,
                    f'panic path of arbitrary is reachable: the draw {witness!r} ({ty}) satisfies every condition leading to the panic',
                    {'draw': repr(witness), 'conds': [(show(cn)[:160], str(v)) for cn, v in o.conds][-4:], 'why': o.why},
-                   site='float Arbitrary scales between two bounds whose distance is not finite (inf * 0 / inf - inf = NaN), with `finite` declared' if inf_end else None)
+                   site='float Arbitrary scales between two bounds of which one is infinite (inf * 0 / inf - inf = NaN), with `finite` declared' if inf_end else None)
         else:
             # try to prove the row infeasible: some condition cannot take its edge for any draw
             proved = False
